@@ -3,7 +3,7 @@
 from __future__ import annotations
 
 from ..gen import TextGen, text_classes, is_trivial_text
-from ..obs import guarded, is_exc
+from ..obs import guarded, is_exc, twin
 from ..oracles import rfc3986 as rfc
 from ..oracles.pct import pct_decode_bytes, utf8, has_surrogate
 
@@ -27,7 +27,7 @@ BASES = [
 ]
 NAMES = ["x", "x.y", ".x", "x.", "..x", "x..", "a b", "a%20b", "a%2Fb", "%", "%25", "é", "ü.ö", "a+b", "a:b", "a@b", "a;b=c", "a,b", "a?b", "a#b", "~", "a\tb",
          "😀", "x.tar.gz", "...", "a%zz", "%2E", "%2e%2e", " ", "\x00"]
-SUFFIXES = [".x", ".tar", ".a b", ".é", ".%20", ".a.b", ".", "", ".x/y", "x", ".😀", ".%", "..", ".a%2Fb", ".#?"]
+SUFFIXES = [".x", ".tar", ".a b", ".é", ".%20", ".a.b", ".tar.gz", ".a.", ".", "", ".x/y", "x", ".😀", ".%", "..", ".a%2Fb", ".#?"]
 
 
 def plan(tier, seed):
@@ -78,6 +78,11 @@ def check_structure(ctx, u, case):
         ctx.fail("suffixes_not_tail", case, f"name={name!r} suffixes={sufs!r}")
     if suf and (not suf.startswith(".") or suf == "."):
         ctx.fail("suffix_shape", case, f"suffix={suf!r}")
+    # documented meaning (as pathlib): the suffix is the last dot-led piece of the name, unless the dot is first or last
+    i = rname.rfind(".")
+    want_rsuf = rname[i:] if 0 < i < len(rname) - 1 else ""
+    if rsuf != want_rsuf:
+        ctx.fail("suffix_not_last_extension", case, f"raw_name={rname!r} raw_suffix={rsuf!r}, expected {want_rsuf!r}")
 
 
 def check_div(ctx, u, s, case):
@@ -183,6 +188,17 @@ def check_with_suffix(ctx, u, x, case):
     dstem = u.name[: len(u.name) - len(u.suffix)]
     if r.name != dstem + x:
         ctx.fail("with_suffix_decoded_name", case, f"name {u.name!r} -> {r.name!r}, expected {dstem + x!r}")
+    # the result is an ordinary URL: its own suffix accessors are those of its name (also when the new suffix has several dots)
+    check_structure(ctx, r, dict(case, derived="with_suffix"))
+    t = twin(r)
+    for acc in ("raw_suffix", "suffix", "raw_suffixes", "suffixes", "raw_name", "name"):
+        if getattr(r, acc) != getattr(t, acc):
+            ctx.fail("with_suffix_result_inconsistent", case, f"{acc} of the result is {getattr(r, acc)!r} but {getattr(t, acc)!r} on a copy of it")
+            return
+    # replacing the suffix again starts from the real suffix of the new name
+    r2, t2 = guarded(lambda: r.with_suffix(".zz")), guarded(lambda: t.with_suffix(".zz"))
+    if (is_exc(r2) != is_exc(t2)) or (not is_exc(r2) and r2.raw_path != t2.raw_path):
+        ctx.fail("with_suffix_chain", case, f"second with_suffix: {getattr(r2, 'raw_path', r2)!r} vs on a copy {getattr(t2, 'raw_path', t2)!r}")
     if (r.scheme, r.raw_authority) != (u.scheme, u.raw_authority):
         ctx.fail("with_suffix_other_component", case, "scheme/authority changed")
 
